@@ -566,9 +566,26 @@ func c13ByteCounter(c *Ctx) {
 			return false
 		}
 		n := callee(call)
-		return strings.HasSuffix(n, "FormatEncoder).Encode") || (n == "desync.tar" && call.Parent() == fn)
+		if strings.HasSuffix(n, "FormatEncoder).Encode") || (n == "desync.tar" && call.Parent() == fn) {
+			return true
+		}
+		// a new helper that encodes elements and returns their byte count
+		if h := call.Call.StaticCallee(); h != nil && newHelpers[h] && h.Signature.Results().Len() > 0 {
+			if b, ok := h.Signature.Results().At(0).Type().Underlying().(*types.Basic); ok && b.Kind() == types.Int64 {
+				return len(calls(h, suffixed("FormatEncoder).Encode"))) > 0
+			}
+		}
+		return false
 	}
 	isAdd := func(ins ssa.Instruction) bool {
+		// the counter as an SSA register (no defer spills it): counter' = counter + nn
+		if bo, ok := ins.(*ssa.BinOp); ok && bo.Op == token.ADD {
+			for _, op := range []ssa.Value{bo.X, bo.Y} {
+				if p, isPhi := stripConv(op).(*ssa.Phi); isPhi && isCounterLoad(p) {
+					return true
+				}
+			}
+		}
 		st, ok := ins.(*ssa.Store)
 		if !ok {
 			return false
@@ -581,7 +598,11 @@ func c13ByteCounter(c *Ctx) {
 		return ok && bo.Op == token.ADD && (isCounterLoad(bo.X) || isCounterLoad(bo.Y))
 	}
 	n := 0
-	for _, b := range fn.Blocks {
+	var allBlocks []*ssa.BasicBlock
+	for _, g := range fnsDeep(fn) {
+		allBlocks = append(allBlocks, g.Blocks...)
+	}
+	for _, b := range allBlocks {
 		for i, ins := range b.Instrs {
 			if !isCounted(ins) {
 				continue
